@@ -476,6 +476,22 @@ func (fc *FuncCtx) formula0(v ssa.Value) *bddNode {
 		if x.Op == token.NOT {
 			return B.Not(fc.Formula(x.X))
 		}
+		if x.Op == token.MUL {
+			// a flag kept in a local that is assigned once (address taken, or captured by a closure)
+			if al, ok := x.X.(*ssa.Alloc); ok {
+				if sv := fc.singleStore(al, x); sv != nil {
+					return fc.Formula(sv)
+				}
+				if sv := lastStoreInBlock(al, x); sv != nil {
+					return fc.Formula(sv)
+				}
+				if sv := capturedSingleStore(al); sv != nil {
+					if st := storeOf(al); st != nil && (st.Block() == x.Block() || st.Block().Dominates(x.Block())) {
+						return fc.Formula(sv)
+					}
+				}
+			}
+		}
 	case *ssa.BinOp:
 		return fc.binopFormula(x)
 	case *ssa.Phi:
